@@ -198,14 +198,20 @@ CLAIMED = {
   "text": "Theorems on the functional model: restoring into any receiver state yields exactly the node-entry state the "
           "snapshot records (stack = the node's body, no pending choice or command, variables, visits, checkpoint), "
           "independently of the receiver; a snapshot taken right after equals the restored one; an unknown node is an "
-          "error that changes nothing; checkpoints are taken at jumps and untouched by assignments. Self-containedness "
+          "error that changes nothing; checkpoints are taken at jumps and untouched by assignments. 'Continues exactly as "
+          "the original did from that node entry' is proved as a simulation (restore_continues_as_original): what Next "
+          "returns depends only on the continuation, the variables as a map, the pending command, the current node, the "
+          "visit counts, the host's command behaviour and the random stream (next_sim), and rebuilding a store from "
+          "GetValues gives the same map; hence a snapshot of a runner at a node entry restored into ANY runner yields "
+          "the same elements for every subsequent choice sequence, and two runners restored from one snapshot continue "
+          "identically (restored_runners_agree). Self-containedness "
           "of snapshot objects (no shared maps) cannot be stated in a value-based model and is checked by the "
           "correspondence family (old snapshots re-read after further steps, two runners restored from one snapshot).",
   "design_ref": "DESIGN.md section 5, C07",
-  "note": "Partial: aliasing is observed, not proved. 'Same elements for every subsequent choice sequence' follows from "
-          "state equality only up to the order of entries in the rebuilt store (extensional equality of stores is not "
-          "lifted through Next by a theorem).",
-  "technique": "Coq proof of restore/snapshot state equations + differential correspondence check over operation histories",
+  "note": "Partial: aliasing of Go maps is observed, not proved. The simulation assumes the same host behaviour and the "
+          "same random stream to come in both runners (the property restricts itself to scripts without random "
+          "functions, for which the stream is irrelevant; that irrelevance is not a separate theorem).",
+  "technique": "Coq proof of restore/snapshot state equations and of a simulation through Next + differential correspondence check over operation histories",
  },
  "C10": {
   "text": "Theorems: with a pending command Next returns Waiting and changes only the poll count (pending_is_inert), on "
